@@ -161,7 +161,23 @@ fn reference_groups(re: &Regex, r: &refm::R, ng: usize, t: &str) -> Option<(Stri
     };
     let want_spans: Vec<Result<(usize, usize), String>> = want_caps.iter().map(|c| Ok(c[0].unwrap())).collect();
     if spans != want_spans {
-        return None;
+        // the matches themselves are not the reference's: whatever is replaced is then wrong too
+        let want_all = {
+            let mut w = String::new();
+            let mut last = 0;
+            for c in &want_caps {
+                let (a, b) = c[0].unwrap();
+                w.push_str(&t[last..a]);
+                w.push_str("<>");
+                last = b;
+            }
+            w.push_str(&t[last..]);
+            w
+        };
+        return match guard_plain(|| re.try_replacen(t, 0, NoExpand("<>")).map(|c| c.into_owned()).map_err(|e| err_kind(&e))) {
+            Got::Val(Ok(g)) if g != want_all => Some(("try_replacen(0, NoExpand(\"<>\"))".into(), format!("{:?} (the matches of the reference iteration {:?} replaced)", want_all, want_spans), format!("{:?} (find_iter yields {:?})", g, spans))),
+            _ => None,
+        };
     }
     let build = |unset: &str| -> String {
         let grp = |c: &refm::Caps, i: usize| -> String { c.get(i).copied().flatten().map_or(unset.to_string(), |(a, b)| format!("{}", &t[a..b])) };
@@ -220,6 +236,9 @@ pub fn run(ctx: &Ctx) -> Outcome {
         let rt = route(&res[0]);
         // error histories: the same pattern under tiny backtrack limits
         for l in [0usize, 2] {
+            if i % 3 != 0 {
+                break;
+            }
             if let Got::Val(r) = compile_with(&s, |b| {
                 b.backtrack_limit(l);
             }) {
@@ -275,7 +294,7 @@ pub fn run(ctx: &Ctx) -> Outcome {
     });
     let mut out = Outcome::new(acc);
     out.distinct_nontrivial = out.acc.distinct;
-    out.rule = format!("{} + \\G/\\K variants of the small trees, every second pattern spelled with named groups; x all {} texts over {{a,b,c,é,\\n,-}} up to length 3 x limits 0..3 x replacers {{\"<>\" as &str / String / NoExpand / closure, identity closure, NoExpand(\"$1\"), templates $0 [$1] ${{g1}} $$ $2-$1}}: result = text with the first n captures_iter matches replaced by the replacer's own output (Captures::expand for templates), other bytes untouched; Cow::Borrowed iff no match; the three spellings of a constant agree (fast path vs captures path); replacers with state (counting closure, recording closure, hand-written Replacer through by_ref): the i-th replaced match gets the i-th call's output and the calls see the matches in text order; for patterns with reference semantics and groups the output of \"[$1|$2]\" as template and as closure must show the groups of the reference matcher's path for every match; under backtrack limits 0 and 2 a search error among the matches to be replaced must come back as Err, and the calls return, never panic. Non-trivial: distinct patterns where >= 1 but not all matches were replaced, or an empty match was replaced.", sp.describe, texts.len());
+    out.rule = format!("{} + \\G/\\K variants of the small trees, every second pattern spelled with named groups; x all {} texts over {{a,b,c,é,\\n,-}} up to length 3 x limits 0..3 x replacers {{\"<>\" as &str / String / NoExpand / closure, identity closure, NoExpand(\"$1\"), templates $0 [$1] ${{g1}} $$ $2-$1}}: result = text with the first n captures_iter matches replaced by the replacer's own output (Captures::expand for templates), other bytes untouched; Cow::Borrowed iff no match; the three spellings of a constant agree (fast path vs captures path); replacers with state (counting closure, recording closure, hand-written Replacer through by_ref): the i-th replaced match gets the i-th call's output and the calls see the matches in text order; for patterns with reference semantics and groups the output of \"[$1|$2]\" as template and as closure must show the groups of the reference matcher's path for every match; under backtrack limits 0 and 2 (every third pattern) a search error among the matches to be replaced must come back as Err, and the calls return, never panic. Non-trivial: distinct patterns where >= 1 but not all matches were replaced, or an empty match was replaced.", sp.describe, texts.len());
     out.assumptions = vec!["template expansion itself is judged by C12; find_iter by C08".into()];
     let eh = out.acc.get("error-histories");
     out.extra = json!({"error_histories": eh});
